@@ -113,6 +113,17 @@ def gen_history(r, n):
             steps.append(("sibling", "reg-item" if a in (0, 1, 3) else "reg-other"))
         steps.append(("give", a, ser, False))
         steps.append(("give", "@reg", ser, r.random() < 0.3))
+    if r.random() < 0.1:
+        # hot swap: the object is registered in another daemon of this process, taken over by ours under the SAME id (forced), then the other
+        # daemon is closed; from then on the object is ours like any other registered object
+        a = r.choice([0, 1, 2, 3, 4])
+        steps.append(("old_register", a, "alpha"))
+        steps.append(("register", a, "alpha", True, False))
+        steps.append(("old_close", r.choice(["close", "shutdown", "with"])))
+        steps.append(("give", a, r.choice(fixture.SERIALIZERS), False))
+        steps.append(("urifor", a))
+        steps.append(("call", "alpha"))
+        steps.append(("listing",))
     if r.random() < 0.12:
         # a registration that FAILS half-way (the object cannot be weakly referenced), forced onto an id somebody else holds
         a = r.choice([0, 1, 2, 3, 4])
@@ -157,6 +168,7 @@ def gen_history(r, n):
 def run_history(fx, pool, hist, rec, hh):
     P = fx.P
     d = fx.daemon
+    fx.old_daemons = []
     model = RegModel()
     klass = {"A": items.KlassA, "B": items.KlassB}
     gen_ids = []
@@ -234,6 +246,23 @@ def run_history(fx, pool, hist, rec, hh):
                 if displaced is not None:
                     model.refresh(displaced)
                 displaced = None
+            elif kind == "old_register":
+                old = P.server.Daemon(host="127.0.0.1", port=0)
+                fx.old_daemons.append(old)
+                old.register(obj_of(st[1]), st[2])
+                rec.count("handover_histories")
+            elif kind == "old_close":
+                while fx.old_daemons:
+                    old = fx.old_daemons.pop()
+                    if st[1] == "close":
+                        old.close()
+                    elif st[1] == "shutdown":
+                        old.shutdown()
+                        old.close()
+                    else:
+                        with old:
+                            pass
+                old = None
             elif kind == "register_noweak":
                 _, oid, force = st
                 obj = items.NoWeak(7)
@@ -474,6 +503,11 @@ def run_history(fx, pool, hist, rec, hh):
         return True
     finally:
         raw.close()
+        while getattr(fx, "old_daemons", None):
+            try:
+                fx.old_daemons.pop().close()
+            except Exception:
+                pass
         # leave the daemon clean for the next history
         for i in list(d.objectsById):
             if i not in ("Pyro.Daemon", "hub"):
